@@ -1,1 +1,4 @@
-pub fn run(_ctx: &crate::ctx::Ctx, _report: &mut vcore::Report) {}
+//! C16 monitor (not written yet).
+pub fn run(_ctx: &crate::ctx::Ctx, report: &mut vcore::Report) {
+    report.notes.push("stub".into());
+}
